@@ -82,11 +82,47 @@ func BuildDTLCP(e EPConfig, reg *Registry) *dtlcp.Config {
 		}
 		c.SessionCache = sc.(dtlcp.SessionCache)
 	}
+	certViaDTLCP(c, e)
 	extraDTLCP(c, e)
 	if e.Clone {
 		c = c.Clone()
 	}
 	return c
+}
+
+// certViaDTLCP moves key pairs from the Certificates list to the Get* callbacks: "cb" every pair,
+// "mixed" the signing pair stays first in the list and the encryption pair comes from its callback.
+// The callbacks answer as the list lookup would (client: only a pair the request's CA list admits).
+func certViaDTLCP(c *dtlcp.Config, e EPConfig) {
+	if e.CertVia == "" || len(c.Certificates) == 0 {
+		return
+	}
+	all := c.Certificates
+	keep := 0
+	if e.CertVia == "mixed" {
+		keep = 1
+	}
+	c.Certificates = all[:keep:keep]
+	if keep == 0 {
+		sig := all[0]
+		c.GetCertificate = func(*dtlcp.ClientHelloInfo) (*dtlcp.Certificate, error) { return &sig, nil }
+		c.GetClientCertificate = func(cri *dtlcp.CertificateRequestInfo) (*dtlcp.Certificate, error) {
+			if cri.SupportsCertificate(&sig) == nil {
+				return &sig, nil
+			}
+			return new(dtlcp.Certificate), nil
+		}
+	}
+	if len(all) > 1 {
+		enc := all[1]
+		c.GetKECertificate = func(*dtlcp.ClientHelloInfo) (*dtlcp.Certificate, error) { return &enc, nil }
+		c.GetClientKECertificate = func(cri *dtlcp.CertificateRequestInfo) (*dtlcp.Certificate, error) {
+			if cri.SupportsCertificate(&enc) == nil {
+				return &enc, nil
+			}
+			return nil, fmt.Errorf("no acceptable encryption certificate")
+		}
+	}
 }
 
 // StateDTLCP projects a connection's observable state.
